@@ -33,6 +33,8 @@ ASSUME = [
     "circuitkey: HashCircuitID is uninterpreted in hash_not_injective (any function into 64 bits); the FNV-1a model is only compared with the code",
     "index: the bijection and release-frame theorems are per key: they assume OnePerKeyAt c s v and NoRekeyAt c s v for THAT key only, from any reachable state in which the key agrees (complements = findings D59, KF-index-rekey); other keys are unrestricted",
     "index: index_sound_memstore assumes LoadsInj (every UnmarshalJSON input has at most one allocation per address; complement = D59_witness_memstore_load)",
+    "index: state.Store is driven the way a caller can: one kept object per primary that is mutated and re-submitted (updsame), mutated without any call (mutown) and writes to what Get* returned (mutget). The store model holds values; the caller's objects live in the driver; a write through a pointer the unchanged code aliases is the model operation `poke` (finding KF-store-alias). Subscribers are stored as copies (a mutown must not change any answer); leases, sessions and NAT bindings keep the caller's pointer. In-place edits of a shared MAC/IP backing array and pools (no secondary index: GetPoolByName scans the primary map) are not driven",
+    "index: every finding clause of this component is granted only when the model reproduces the implementation's answer on that line",
     "index: not driven: IPv6 addresses, Authenticate, the expiry sweeps (same by-value deletion code), pools of state.Store; the stress workloads are clean by construction (every goroutine owns its keys), their audit is judged with clause none",
     "NTE ids, subscriber ids and MACs are injectively mapped to naturals by the harness",
 ]
